@@ -72,6 +72,33 @@ NOTES = {
     "C19-e3": "exchange-level bar subscriptions with different options over a fake websocket",
     "C20-e1": "monitoring reads of the tokens property between requests",
     "C20-e3": "waiters that give up (cancelled) and retry",
+    # round f
+    "C01-f1": "second feed of the same pair also under the volume-share model with fees",
+    "C03-f2": "reported by C19 (a CSV source object reused after a run that stopped early)",
+    "C05-f1": "order amount off the base grid and numerically equal to the order's price",
+    "C05-f2": "handlers schedule jobs for 'now' / the past that cancel orders",
+    "C06-f2": "reported by C09 (minimum fee charged per fill)",
+    "C07-f1": "micro_c07 repays closed (rolled-back) loans; internal errors from the API are violations",
+    "C07-f3": "two explicit loans of exactly the same size in the blocked-repayment micro scenario",
+    "C08-f3": "the same bar source registered twice",
+    "C09-f1": "part of the runs with the library's loggers at DEBUG level",
+    "C09-f3": "decoy exchange shares the fee-scheme object and has coarser precisions",
+    "C10-f1": "lending strategy subclass answering get_conditions() itself over a lenient base configuration",
+    "C10-f2": "thin LendingStrategy delegating to a MarginLoans it owns",
+    "C10-f3": "'everything borrowed' also counts the loans the exchange lists as open",
+    "C11-f3": "lending conditions replaced mid-run (open loans keep theirs)",
+    "C12-f2": "plain handlers returning awaitable objects",
+    "C13-f3": "a job must be over before an event with a later time starts",
+    "C14-f2": "application's own SIGTERM / SIGINT handlers must survive run(stop_signals=[])",
+    "C15-f3": "idle handlers of one dispatcher never run on another dispatcher of the process",
+    "C16-f1": "session whose base URL carries a path prefix",
+    "C16-f3": "session with the library's loggers at DEBUG level",
+    "C18-f1": "websocket tokens expire after 60 s in the fake peer; long gaps before reconnections",
+    "C19-f1": "zero-amount leading trades (exchange-level case)",
+    "C19-f2": "field separators handed over through dict_reader_kwargs",
+    "C19-f3": "Yahoo row parser's sanitize switch",
+    "C20-f1": "fractional-second and multi-day periods",
+    "C20-f2": "an order-book poller built with the same limiter",
 }
 
 
